@@ -2,7 +2,7 @@
 import e2e
 from props import _sim
 
-GEN_FILES = ["Simulate.v", "SimulateKernels.v", "Argmax.v"]
+GEN_FILES = ["Simulate.v", "SimulateKernels.v", "Argmax.v", "CCV.v", "ModelFunctions.v", "ChoiceAxes.v"]
 TRUSTED = e2e.TRUSTED
 ASSUMPTIONS = e2e.ASSUMPTIONS + [
     "'with JIT compilation on' and 'up to floating-point tolerance' are runtime: every simulation runs jitted and is judged with a 1e-9 relative tolerance",
